@@ -306,6 +306,19 @@ def replay_trail_{l1}_{l2}(has_trail, tok, tok2):
     return replay_link_trail(has_trail, tok, tok2)
 ''')
     out.append('''
+def hdrarg_all(kind_i: int, ai: int, level: int, italic: bool) -> bool:
+    """
+    pre: 0 <= kind_i < 4 and 0 <= ai < len(HDR_ARGS) and 1 <= level <= 6
+    pre: kind_i != 3 or ai in (0, 2, 3)
+    post: _
+    """
+    return hdrarg_step(kind_i, ai, level, italic)
+
+
+def replay_hdrarg_all(kind_i, ai, level, italic):
+    return replay_hdrarg(kind_i, ai, level, italic)
+
+
 def towt_all(ki: int, ti: int, has_children: bool, has_attrs: bool) -> bool:
     """
     pre: 0 <= ki < len(TW_KINDS) and 0 <= ti < len(TW_TAGS)
@@ -349,7 +362,8 @@ def run(rep: C.Report) -> None:
     xh.check_harness(
         rep,
         H,
-        {"^towt_": dict(name="Ob11 to_wikitext(), which parse() applies to the nodes in the attribute region of a table / row, is total (no exception out of parse())", functions=["node_expand.py:to_wikitext", "parser.py:check_for_attributes"], bounds="every node kind x 6 tags for HTML nodes (allowed paired and void tags, the stray end tag </hl>, an extension tag known only to the context) x with/without children x with/without attributes, documented argument shapes (symbolic indices: solver-driven case split)"),
+        {"^hdrarg_": dict(name="Ob12 a heading keeps its title argument whatever saved construct the title holds (documented shape of LEVELn nodes), line breaks inside the construct included", functions=["parser.py:subtitle_start_fn", "parser.py:subtitle_end_fn", "parser.py:process_text", "parser.py:magic_fn"], bounds="4 construct kinds x 6 argument texts (plain, one / two line breaks, formatting, blank) x levels 1..6 x optionally inside italics (symbolic indices); an external link takes the single-line arguments only (it cannot span lines)"),
+         "^towt_": dict(name="Ob11 to_wikitext(), which parse() applies to the nodes in the attribute region of a table / row, is total (no exception out of parse())", functions=["node_expand.py:to_wikitext", "parser.py:check_for_attributes"], bounds="every node kind x 6 tags for HTML nodes (allowed paired and void tags, the stray end tag </hl>, an extension tag known only to the context) x with/without children x with/without attributes, documented argument shapes (symbolic indices: solver-driven case split)"),
          "^tokq_": dict(name="Ob10 the tokenizer's quote mask never leaves token_iter (plain lines and heading titles)", functions=["parser.py:token_iter"], bounds="line with a tag carrying two quoted attributes, plain or as the title of a heading of level 1..3; quote character and one value character symbolic"),
          "^trail_": dict(name="Ob8 text arriving after a closed link: the link keeps at most one (trail) string, nothing is lost or reordered", functions=["parser.py:text_fn (link trail)"], bounds="link with or without a trail; one token of 1..2 (thorough 3) or two tokens of 1..2 symbolic characters over {a,s,space,!,'}"),
          "^magic_": dict(name="Ob7 re-parsing the arguments of a saved template / parameter reference / link / external link leaves nothing open that it opened and never pops ROOT (no exception)", functions=["parser.py:magic_fn", "parser.py:_parser_pop", "parser.py:process_text"], bounds="4 construct kinds x {top level, table cell} x optional open italic x 2 (thorough 3) arguments each drawn from 10 argument texts with open/close formatting, rule and list lines (symbolic indices: solver-driven case split)"),
